@@ -166,8 +166,11 @@ def build_tools():
             if rc != 0: problems.append('modelrun build failed: ' + out[-800:])
         return problems, time.time() - t0
 
+JOB_TIMEOUT = [240]
+
 def plan(tier, seed):
     """list of (name, profile-binary, args) trace jobs"""
+    JOB_TIMEOUT[0] = 240 if tier == 'quick' else 2400
     jobs = []
     for f in sorted(glob.glob(os.path.join(ROOT, 'corpus', '*.trace'))):
         b = os.path.basename(f)[:-6]
@@ -192,11 +195,15 @@ def run_job(job, rundir, variant='fixed'):
     stream = os.path.join(rundir, name + '.stream')
     outp = os.path.join(rundir, name + '.model')
     exe = os.path.join(CACHE, 'target', prof, 'cache_trace')
+    class _R: pass
     with open(stream, 'w') as f:
-        rc = subprocess.run([exe] + args, stdout=f, stderr=subprocess.PIPE, timeout=3000)
+        try:
+            rc = subprocess.run([exe] + args, stdout=f, stderr=subprocess.PIPE, timeout=JOB_TIMEOUT[0])
+        except subprocess.TimeoutExpired:
+            rc = _R(); rc.returncode = -999; rc.stderr = b'timed out (the operation did not return: hang / non-terminating loop)'
     err = ''
     if rc.returncode != 0:
-        err = 'cache_trace %s exited with %d: %s' % (' '.join(args), rc.returncode, rc.stderr.decode(errors='replace')[-300:])
+        err = 'CRASH cache_trace %s exited with %d (negative = killed by that signal): %s' % (' '.join(args), rc.returncode, rc.stderr.decode(errors='replace')[-300:])
     with open(stream) as fi, open(outp, 'w') as fo:
         rc2 = subprocess.run([os.path.join(ROOT, 'bin', 'modelrun'), variant], stdin=fi, stdout=fo, stderr=subprocess.PIPE, timeout=3000)
     if rc2.returncode != 0:
@@ -249,7 +256,9 @@ def correspondence(tier, seed):
                 for name, stream, outp, err in ex.map(lambda j: run_job(j, rundir), jobs):
                     pr = parse_model_output(outp)
                     pr['stream'] = stream
-                    if err: result['problems'].append(err)
+                    if err.startswith('CRASH'):
+                        result.setdefault('crashes', []).append(dict(job=name, stream=stream, what=err))
+                    elif err: result['problems'].append(err)
                     if not pr['summary']: result['problems'].append('no summary from modelrun for ' + name)
                     result['jobs'][name] = pr
         result['wall_s'] = time.time() - t0
@@ -270,18 +279,21 @@ def extract_trace(stream, trace_idx):
         elif t > trace_idx: break
     return out
 
+def comp_table(cfg):
+    """component -> None (any operation) | set of operation names"""
+    t = {}
+    for c in cfg.get('comps', []):
+        if isinstance(c, (list, tuple)): t[c[0]] = (None if c[1] is None else set(c[1]))
+        else: t[c] = (None if cfg.get('ops') is None else set(cfg['ops']))
+    for c in cfg.get('comps_any', []): t[c] = None
+    return t
+
 def fails_for(pid, corr):
-    cfg = PROPS[pid]
-    comps = set(cfg['comps'])
-    comps_any = set(cfg.get('comps_any', []))      # components that count whatever the operation
-    ops = cfg.get('ops')
+    tab = comp_table(PROPS[pid])
     found = []
     for name, job in sorted(corr['jobs'].items()):
         for f in job['fails']:
-            if ops is None or f.get('op') in ops:
-                hit = [c for c in f['comps'] if c in comps or c in comps_any]
-            else:
-                hit = [c for c in f['comps'] if c in comps_any]
+            hit = [c for c in f['comps'] if c in tab and (tab[c] is None or f.get('op') in tab[c])]
             if not hit: continue
             found.append(dict(job=name, stream=job['stream'], hit=hit, **f))
     return found
@@ -425,6 +437,16 @@ def main():
         path = write_replay(pid, sig, header, small)
         violations.append((path, 'implementation and model/monitor disagree at %s' % sig, False))
 
+    for cr in corr.get('crashes', []):
+        # the implementation killed the harness process: the last trace of the stream is the failing input
+        try:
+            n_tr = sum(1 for l in open(cr['stream'], errors='replace') if l.startswith('CFG 0 '))
+            lines = [l for l in extract_trace(cr['stream'], n_tr - 1) if l.startswith(('CFG', 'OP'))] + ['END\n']
+        except Exception:
+            lines = []
+        path = write_replay(pid, 'crash' + cr['job'], ['property=%s' % pid, 'the real crate crashed the harness process while executing this trace (memory unsafety / abort):', cr['what'],
+                                                      'the last OP line is the operation during which the process died'], lines)
+        violations.append((path, 'implementation crashed during the correspondence run (%s)' % cr['job'], False))
     if corr['problems']:
         path = write_replay(pid, 'corr', ['correspondence could not be established:'] + [p[:2000] for p in corr['problems']], [])
         violations.append((path, 'correspondence check broken', True))
@@ -467,8 +489,8 @@ def main():
             proof_problems=proof['problems'], static_c19=(None if static is None else dict(ok=static[0], roots=static[1].get('roots'), functions=static[1].get('functions'), functions_with_write_primitive=static[1].get('functions_with_write_primitive'), clone=static[1].get('clone'), not_covered=static[1].get('not_covered'))),
             traces_validated_against_impl=tot_traces, evaluations=tot_steps, distinct_nontrivial=nontriv,
             rule='one evaluation = one observed step (pre-state, operation, result, post-state) of the real LruCache, checked against the extracted Coq model started from the observed pre-state and against the extracted monitors; distinct = distinct (operation, pre-state entries, limit) triples; non-trivial = pre-state non-empty',
-            components_checked={k: v for k, v in sorted(checked.items()) if k in cfg['comps'] or k in cfg.get('comps_any', [])},
-            components_of_this_property=cfg['comps'], ops_of_this_property=cfg.get('ops') or 'all',
+            components_checked={k: v for k, v in sorted(checked.items()) if k in comp_table(cfg)},
+            components_of_this_property={k: (sorted(v) if v else 'all operations') for k, v in comp_table(cfg).items()},
             operation_histogram=ophist, input_distribution=dist,
             jobs=sorted(corr['jobs'].keys()), correspondence_cached=corr.get('cached', False),
             samples=samples, exhaustive=False),
@@ -484,8 +506,17 @@ def main():
         print('  ' + what)
     if not violations:
         print('OK %s: %d obligations checked, %d observed steps of %d traces agree with the model on %s (%.1fs)' %
-              (pid, proof['discharged'], tot_steps, tot_traces, ','.join(cfg['comps']), time.time() - t0))
+              (pid, proof['discharged'], tot_steps, tot_traces, ','.join(sorted(comp_table(cfg))), time.time() - t0))
     return 1 if violations else 0
 
 if __name__ == '__main__':
-    sys.exit(main())
+    try:
+        rc = main()
+    except Exception:
+        import traceback
+        traceback.print_exc()
+        pid = sys.argv[1] if len(sys.argv) > 1 else '?'
+        path = write_replay(pid, 'internal', ['the check itself failed with an internal error (see traceback on stdout); the property is not shown to hold', traceback.format_exc()[-3000:]], [])
+        print('VIOLATION property=%s replay=%s no-failing-input-found' % (pid, path))
+        rc = 1
+    sys.exit(rc)
